@@ -139,27 +139,48 @@ func c18run(p *c18pki, c c18cell) (bool, string, bool) {
 			return false, err.Error(), true
 		}
 		defer ln.Close()
-		got := make(chan []byte, 1)
+		// every connection is served (an exporter may dial more than once); the first bytes any of them
+		// delivers after a completed handshake are what the peer "received"
+		got := make(chan []byte, 16)
 		go func() {
-			conn, err := ln.Accept()
-			if err != nil {
-				got <- nil
-				return
+			for {
+				conn, err := ln.Accept()
+				if err != nil {
+					return
+				}
+				go func() {
+					defer conn.Close()
+					conn.SetDeadline(time.Now().Add(3 * time.Second))
+					b := make([]byte, 64)
+					if n, _ := conn.Read(b); n > 0 {
+						got <- b[:n]
+					}
+				}()
 			}
-			defer conn.Close()
-			conn.SetDeadline(time.Now().Add(3 * time.Second))
-			b := make([]byte, 64)
-			n, _ := conn.Read(b)
-			got <- b[:n]
 		}()
 		in := exporter.ExporterInput{CollectorAddress: ln.Addr().String(), CollectorProtocol: "tcp", ObservationDomainID: 9,
 			TLSClientConfig: &exporter.ExporterTLSClientConfig{ServerName: c18serverName(c.Name), CAData: p.ca.PEM}}
 		if c.Client != "none" {
 			in.TLSClientConfig.CertData, in.TLSClientConfig.KeyData = p.client[c.Client][0], p.client[c.Client][1]
 		}
-		ep, err := exporter.InitExportingProcess(in)
-		if err != nil {
-			return false, "InitExportingProcess: " + err.Error(), false
+		type ir struct {
+			ep  *exporter.ExportingProcess
+			err error
+		}
+		idone := make(chan ir, 1)
+		go func() {
+			ep, err := exporter.InitExportingProcess(in)
+			idone <- ir{ep, err}
+		}()
+		var ep *exporter.ExportingProcess
+		select {
+		case x := <-idone:
+			if x.err != nil {
+				return false, "InitExportingProcess: " + x.err.Error(), false
+			}
+			ep = x.ep
+		case <-time.After(40 * time.Second):
+			return false, "InitExportingProcess neither completed nor failed within 40 s", true
 		}
 		defer ep.CloseConnToCollector()
 		set := e2eCase{elems: []e2eElem{{c15ie("sourceTransportPort", 0)}}}.tmplSet(ep.NewTemplateID())
@@ -376,6 +397,63 @@ func c18plaintext(p *c18pki, rep *common.Reporter) int {
 			cp.Stop()
 		}
 	}
+	// security settings present but unusable (a client CA that is no certificate, an empty client CA, a key
+	// that does not belong to the certificate, a certificate that is none): the collector may refuse to
+	// start, it must not come up serving IPFIX in clear
+	broken := []struct {
+		what string
+		in   collector.CollectorInput
+	}{
+		{"client CA holds a key, not a certificate", collector.CollectorInput{IsEncrypted: true, ServerCert: sc[0], ServerKey: sc[1], CACert: sc[1]}},
+		{"client CA is empty", collector.CollectorInput{IsEncrypted: true, ServerCert: sc[0], ServerKey: sc[1], CACert: []byte{}}},
+		{"client CA is not PEM", collector.CollectorInput{IsEncrypted: true, ServerCert: sc[0], ServerKey: sc[1], CACert: []byte("-----BEGIN CERTIFICATE-----\nnot base64\n-----END CERTIFICATE-----\n")}},
+		{"server key belongs to another certificate", collector.CollectorInput{IsEncrypted: true, ServerCert: sc[0], ServerKey: p.server["other-ca"][1]}},
+		{"server certificate is not a certificate", collector.CollectorInput{IsEncrypted: true, ServerCert: []byte("garbage"), ServerKey: sc[1]}},
+		{"no server certificate at all", collector.CollectorInput{IsEncrypted: true}},
+	}
+	for _, b := range broken {
+		for _, proto := range []string{"tcp", "udp"} {
+			n++
+			in := b.in
+			in.Address, in.Protocol, in.MaxBufferSize = "127.0.0.1:0", proto, 65535
+			cp, err := collector.InitCollectingProcess(in)
+			if err != nil {
+				continue // refused outright: fine
+			}
+			started := make(chan struct{})
+			go func() { defer func() { recover(); close(started) }(); cp.Start() }()
+			addr := ""
+			for i := 0; i < 1000 && addr == ""; i++ {
+				if a := cp.GetAddress(); a != nil {
+					addr = a.String()
+				}
+				select {
+				case <-started:
+					i = 1000
+				case <-time.After(time.Millisecond):
+				}
+			}
+			if addr == "" {
+				continue // never listened: fine
+			}
+			ep, err := exporter.InitExportingProcess(exporter.ExporterInput{CollectorAddress: addr, CollectorProtocol: proto, ObservationDomainID: 9})
+			if err == nil {
+				set := e2eCase{elems: []e2eElem{{c15ie("sourceTransportPort", 0)}}}.tmplSet(ep.NewTemplateID())
+				ep.SendSet(set)
+			}
+			select {
+			case <-cp.GetMsgChan():
+				rep.Report("plaintext", "plaintext-accepted", fmt.Sprintf("a collector with IsEncrypted set (%s; %s) came up and delivered a message received over an unencrypted session", proto, b.what), map[string]string{"cell": "broken security settings: " + b.what + " / " + proto}, nil)
+			case <-time.After(400 * time.Millisecond):
+			}
+			if err == nil {
+				ep.CloseConnToCollector()
+			}
+			if proto == "tcp" {
+				cp.Stop()
+			}
+		}
+	}
 	// security settings present but the transport spelled "tcp4"/"tcp6"/"udp4"/"udp6": whatever the
 	// library makes of such a configuration, it must not talk IPFIX in clear
 	for _, proto := range []string{"tcp4", "tcp6", "udp4", "udp6"} {
@@ -587,7 +665,7 @@ func runC18(tier, replay string) int {
 	ev.Coverage = common.Coverage{
 		"states": len(cells) + np, "transitions": len(cells) + np, "traces_validated_against_impl": len(cells) + np, "samples": samples,
 		"evaluations": len(cells) + np, "distinct_nontrivial": len(cells) + np,
-		"rule":       "every cell of the acceptance matrix, each a real TLS/DTLS session on loopback with certificates minted in process: library exporter vs hand-made TLS server {7 server certificate kinds x 3 ServerName settings x peer max version 1.1/1.2/1.3 x client cert none/trusted}; hand-made TLS client vs library collector {4 client certificate kinds x client-CA set/unset x max version 1.1/1.2/1.3}; library exporter vs library collector over TLS {7 x 3 x 4 client kinds x client-CA set/unset} and over DTLS {7 x 3}; plus plaintext exporter vs TLS/DTLS collector and TLS/DTLS exporter vs plaintext listener, plus two-step sequences against one long-lived server (an exporter trusting the server's CA, then one trusting a different CA only). Oracle (tlspolicy): messages flow <=> chain to the configured CA, inside validity, name/address match, version >= 1.2, client certificate from the client CA when one is configured. Cells are distinct by construction",
+		"rule":       "every cell of the acceptance matrix, each a real TLS/DTLS session on loopback with certificates minted in process: library exporter vs hand-made TLS server {7 server certificate kinds x 3 ServerName settings x peer max version 1.1/1.2/1.3 x client cert none/trusted}; hand-made TLS client vs library collector {4 client certificate kinds x client-CA set/unset x max version 1.1/1.2/1.3}; library exporter vs library collector over TLS {7 x 3 x 4 client kinds x client-CA set/unset} and over DTLS {7 x 3}; plus plaintext exporter vs TLS/DTLS collector (also with six kinds of unusable security settings, which must never make the collector serve in clear) and TLS/DTLS exporter vs plaintext listener, plus two-step sequences against one long-lived server (an exporter trusting the server's CA, then one trusting a different CA only). Oracle (tlspolicy): messages flow <=> chain to the configured CA, inside validity, name/address match, version >= 1.2, client certificate from the client CA when one is configured. Cells are distinct by construction",
 		"exhaustive": stuck == 0, "flowed": flowed, "refused": refused, "open_cells": openCells, "stuck": stuck,
 	}
 	ev.Assumptions = []string{"DTLS with no ServerName configured: the DTLS library checks the chain but no name; the two cells (wrong SAN, no SAN) x unset are left open", "a refused cell is observed as 'nothing delivered within 400 ms'; an accepted one must deliver within 5 s"}
